@@ -57,6 +57,9 @@ func (m *Machine) load(pv Value) Value {
 		if !ok {
 			m.unsupported("symbolic index into non-array")
 		}
+		if tok, ok := m.tableToken(p.Obj, arr, p.Sym); ok {
+			return tok
+		}
 		if len(arr.E) <= 4096 && len(arr.E) > 0 {
 			// balanced selection tree over the index (depth log n; equal subtrees collapse)
 			if v, ok := m.muxLoad(arr.E, 0, len(arr.E), p.Sym); ok {
@@ -66,6 +69,44 @@ func (m *Machine) load(pv Value) Value {
 		p = m.concPtr(p)
 	}
 	return m.copyVal(*m.slot(p))
+}
+
+// tableToken: a symbolic index into a table of at least 16 pairwise distinct, non-empty constant strings yields an
+// abstract token (the table entry at that index) instead of a selection tree over strings of different lengths.
+func (m *Machine) tableToken(obj *Object, arr *ArrayVal, idx *smt.Term) (Value, bool) {
+	if len(arr.E) < 16 {
+		return nil, false
+	}
+	if m.tblCache == nil {
+		m.tblCache = map[*ArrayVal][]string{}
+	}
+	tbl, seen := m.tblCache[arr]
+	if !seen {
+		tbl = make([]string, len(arr.E))
+		dist := map[string]bool{}
+		for i, e := range arr.E {
+			sv, ok := e.(StrVal)
+			if !ok {
+				tbl = nil
+				break
+			}
+			c, ok := sv.Concrete()
+			if !ok || c == "" || dist[c] {
+				tbl = nil
+				break
+			}
+			dist[c] = true
+			tbl[i] = c
+		}
+		m.tblCache[arr] = tbl
+	}
+	if tbl == nil {
+		return nil, false
+	}
+	if idx.Sort.K != smt.KInt && idx.Sort.W < 64 {
+		idx = smt.Zext(idx, 64-idx.Sort.W) // in bounds, hence non-negative: one width for every token of the table
+	}
+	return StrVal{Abs: &AbsStr{Ctor: fmt.Sprintf("tbl#%p", arr), Args: []*smt.Term{idx}, Tbl: tbl}}, true
 }
 
 // muxLoad selects elems[idx] for idx in [lo,hi) with a balanced tree of idx < mid tests.
@@ -431,6 +472,35 @@ func (m *Machine) strConcat(a, b StrVal) StrVal {
 }
 
 func (m *Machine) strEq(a, b StrVal) *smt.Term {
+	if a.Abs != nil && b.Abs != nil && a.Abs.Parts != nil && b.Abs.Parts != nil {
+		// joins with the same separator: equal iff the same parts (no part is empty or contains the separator)
+		if a.Abs.Ctor != b.Abs.Ctor || len(a.Abs.Parts) != len(b.Abs.Parts) {
+			return smt.False
+		}
+		cs := make([]*smt.Term, len(a.Abs.Parts))
+		for i := range cs {
+			cs[i] = m.strEq(a.Abs.Parts[i], b.Abs.Parts[i])
+		}
+		return smt.And(cs...)
+	}
+	if (a.Abs != nil && a.Abs.Tbl != nil) != (b.Abs != nil && b.Abs.Tbl != nil) {
+		// table token against a constant string: the index of that string in the table, if it is there
+		tok, other := a, b
+		if b.Abs != nil && b.Abs.Tbl != nil {
+			tok, other = b, a
+		}
+		if c, ok := other.Concrete(); ok {
+			for i, w := range tok.Abs.Tbl {
+				if w == c {
+					return smt.Eq(tok.Abs.Args[0], m.idxConst(tok.Abs.Args[0], i))
+				}
+			}
+			return smt.False
+		}
+	}
+	if a.Abs != nil && b.Abs != nil && a.Abs.Tbl != nil && b.Abs.Tbl != nil && a.Abs.Ctor != b.Abs.Ctor {
+		m.unsupported("comparison of tokens of two different tables")
+	}
 	if a.Abs != nil || b.Abs != nil {
 		if a.Abs == nil || b.Abs == nil {
 			if a.Len() != b.Len() {
@@ -651,6 +721,23 @@ func (m *Machine) lookup(x *ssa.Lookup, base, key Value) Value {
 	vt := x.X.Type().Underlying().(*types.Map).Elem()
 	var val Value
 	var found *smt.Term
+	if ks, isStr := key.(StrVal); isStr && mv.M != nil && ks.Abs != nil && ks.Abs.Tbl != nil {
+		// a table token as key: supported when the map is the inverse of the table (entry i -> i), checked concretely
+		if !m.mapInvertsTable(mv.M, ks.Abs.Tbl) {
+			m.unsupported("map look-up by a table token in a map that is not the table's inverse")
+		}
+		nt, ok := intInfo(vt)
+		if !ok {
+			m.unsupported("map look-up by a table token: value type %s", vt)
+		}
+		idx := ks.Abs.Args[0]
+		val = m.convert(idx, types.Typ[types.Int], vt)
+		_ = nt
+		if x.CommaOk {
+			return TupleVal{val, smt.True}
+		}
+		return val
+	}
 	if mv.M == nil {
 		val, found = m.zero(vt), smt.False
 	} else {
@@ -701,6 +788,34 @@ func (m *Machine) lookup(x *ssa.Lookup, base, key Value) Value {
 		return TupleVal{val, found}
 	}
 	return val
+}
+
+// mapInvertsTable: the map has exactly the table's entries as keys and maps entry i to i.
+func (m *Machine) mapInvertsTable(mo *MapObj, tbl []string) bool {
+	if m.invCache == nil {
+		m.invCache = map[*MapObj]map[string]bool{}
+	}
+	key := fmt.Sprintf("%p/%d", &tbl[0], len(tbl))
+	if r, ok := m.invCache[mo][key]; ok {
+		return r
+	}
+	res := len(mo.Keys) == len(tbl)
+	for i := 0; res && i < len(tbl); i++ {
+		j, _ := m.mapFind(mo, StrVal{S: tbl[i]})
+		if j < 0 {
+			res = false
+			break
+		}
+		t, ok := mo.Vals[j].(*smt.Term)
+		if !ok || !t.IsConst() || t.BigVal().Int64() != int64(i) {
+			res = false
+		}
+	}
+	if m.invCache[mo] == nil {
+		m.invCache[mo] = map[string]bool{}
+	}
+	m.invCache[mo][key] = res
+	return res
 }
 
 func (m *Machine) mapUpdate(mapv, key, val Value) {
